@@ -6,12 +6,15 @@ T-gen : Gen/Flags.v regenerated from pandora/constants.py (imported values) and 
 T-corr: (A) the real criteria functions (criteria.validity_mask, then compute_cost_volume + cv_masked, called
         as PandoraMachine.matching_cost_prepare/_run call them) against the extracted Model/Criteria.v on
         generated (masks, interval or grids, window, subpix) layouts, exact;
-        (B) random legal pipelines run for real through pandora.run; the masks are captured after every step
-        by wrapping the machine callbacks; every per-pixel flag change must be one the extracted
-        Model/FlagSteps.v can produce for SOME decision of the step (exact, existential over decisions).
+        (B) random legal pipelines (repeated refinement / filter / validation, mc-cnn and sgm interpolation,
+        median_for_intervals with regularization) run for real through pandora.run on a fresh machine; the left
+        and right masks are captured after every step by wrapping the machine callbacks; every per-pixel flag
+        change must be one the extracted Model/FlagSteps.v can produce for SOME decision of the step (exact,
+        existential over the 1024 decisions).
 Spec  : the boolean spec of Spec/Validity.v (extracted) applied to the implementation's masks after the
         matching cost; per step: only documented bits, < 4096, only the step's own bits change, border
         pixels bit 0 only, invalid flag <-> all costs NaN <-> invalid disparity before validation."""
+import hashlib
 import json
 import os
 
@@ -29,7 +32,7 @@ RULE = ("(A) layouts = (rows, cols, window, interval or grids, subpix, measure, 
         "other masks up to width 7; quick: sampled); a layout is non-trivial when some pixel carries a flag "
         "other than 0 and the border value; distinct by full content. (B) pipelines = random legal words "
         "MC (A|C)* D (F|R|V)* with repeated refinement / filter / validation steps and interpolation, run on "
-        "8x12 masked images; non-trivial when some flag changes after the disparity step; distinct by "
+        "6..9 x 9..13 masked images (window 1/3/5, sad/ssd/census, subpix 1/2, invalid_disparity -9999 / NaN / 77); non-trivial when some flag changes after the disparity step; distinct by "
         "(step list, image seed)")
 ASSUMES = [
     "cv.coords['col'] = 0..nc-1 with step 1 (no ROI, step_col = 1), odd window sizes, integer global interval",
@@ -38,8 +41,11 @@ ASSUMES = [
     "the 0/1 factors of the flag writes (dil, comp, msk[arg_valid]) are 0/1 (modelled as booleans)",
     "flag-level model of refinement / cross-checking / interpolation / median_for_intervals: which pixel is "
     "stopped, inconsistent, filled, regularised is an arbitrary decision (numeric side: C06, C07, C14, C10)",
-    "'all costs NaN <-> no computable disparity' (C02) is checked here on the real cost volumes, not proved; "
-    "the theorems take the NaN pattern of the spec (computable) as the input of mask_invalid_variable_disparity_range",
+    "'all costs NaN <-> no computable disparity of the global interval' is PROVED for the SAD / SSD volume models of C02 "
+    "(C04_nan_pattern_sad, C04_invalid_iff_allnan_sad/ssd); for census / zncc (no C02 theorem yet) and for the real cost "
+    "volumes it is the hypothesis nan_pattern_ok of the criteria theorems, checked on every real volume of the run",
+    "the border invariant of the pipeline theorem is 'flag 1, or 2049 after a regularising median_for_intervals' (recorded "
+    "finding border_regularized); own-bits of a step is proved for pixels whose flag is 1 when on the border",
     "plugin steps (optimization, semantic_segmentation), multiscale pyramids and the dead functions "
     "approximate_right_disparity / approximate_subpixel_refinement are outside the pipeline theorem",
 ]
@@ -48,7 +54,7 @@ TRUSTED = ["Gen/Flags.v produced by translator/gen_flags.py (constants by import
 INVALID_BEFORE_VALIDATION = 0b11000011
 
 # proposed known findings of this worktree (merged into known_findings.json by the integrator)
-_EXTRA_KNOWN = os.path.join(core.VERIF, "known_findings.a9.json")
+_EXTRA_KNOWN = os.path.join(core.VERIF, "known_findings.b5.json")
 if os.path.exists(_EXTRA_KNOWN) and not getattr(core, "_c04_known_patched", False):
     _orig_load_known = core.load_known
 
@@ -338,6 +344,268 @@ def part_a(ctx, model):
         check_layouts(ctx, model, one[i:i + 20000], "one_row")
 
 
+# --------------------------------------------------------------------------- (B) whole pipelines
+
+KIND_STEP = {"filter": 0, "refinement": 2, "validation": 3, "multiscale": 4}
+ICODE = {None: 0, "mc-cnn": 1, "sgm": 2}
+OWN_BITS = {"refinement": 8, "validation": 256 + 512, "validation+interp": 256 + 512 + 16 + 32, "mfi_reg": 2048, "none": 0}
+CV_KINDS = ("aggregation", "optimization", "semantic_segmentation", "cost_volume_confidence")
+
+
+def gen_pipeline_case(rng, idx):
+    rows, cols = rng.randrange(6, 10), rng.randrange(9, 14)
+    w = rng.choice([1, 3, 3, 5])
+    method = rng.choice(["sad", "ssd", "census"]) if w in (3, 5) else rng.choice(["sad", "ssd"])
+    a, b = rng.randrange(-3, 4), rng.randrange(-3, 4)
+    disp = [min(a, b), max(a, b)]
+    shift = rng.randrange(-1, 2)
+    base = [[rng.randrange(0, 40) for _ in range(cols + 8)] for _ in range(rows)]
+    left = [[base[r][c + 4] + rng.randrange(0, 3) for c in range(cols)] for r in range(rows)]
+    right = [[base[r][c + 4 + shift] + (rng.randrange(0, 25) if rng.random() < 0.15 else 0) for c in range(cols)]
+             for r in range(rows)]
+    p_nd, p_inv = rng.choice([(0.0, 0.0), (0.03, 0.03), (0.06, 0.02), (0.02, 0.08)])
+    ml = random_cls(rng, rows, cols, p_nd, p_inv) if rng.random() < 0.8 else None
+    mr = random_cls(rng, rows, cols, p_nd, p_inv) if rng.random() < 0.8 else None
+    steps = [["matching_cost", {"matching_cost_method": method, "window_size": w, "subpix": rng.choice([1, 1, 2])}]]
+    use_mfi = rng.random() < 0.35
+    if rng.random() < 0.15:
+        steps.append(["aggregation", {"aggregation_method": "cbca"}])
+    if use_mfi:
+        steps.append(["cost_volume_confidence.amb", {"confidence_method": "ambiguity", "eta_max": 0.7, "eta_step": 0.1}])
+        steps.append(["cost_volume_confidence.int", {"confidence_method": "interval_bounds"}])
+    elif rng.random() < 0.2:
+        steps.append(["cost_volume_confidence", {"confidence_method": "std_intensity"}])
+    steps.append(["disparity", {"disparity_method": "wta", "invalid_disparity": rng.choice([-9999, "NaN", 77])}])
+    counts = {}
+    for _ in range(rng.choice([0, 1, 2, 3, 3, 4, 5, 6])):
+        kind = rng.choice(["filter", "refinement", "refinement", "validation", "validation"])
+        n = counts.get(kind, 0)
+        counts[kind] = n + 1
+        name = kind if n == 0 else f"{kind}.{n}"
+        if kind == "filter":
+            c = rng.choice(["median", "bilateral", "mfi", "mfi"]) if use_mfi else rng.choice(["median", "bilateral"])
+            if c == "median":
+                cfg = {"filter_method": "median", "filter_size": 3}
+            elif c == "bilateral":
+                cfg = {"filter_method": "bilateral", "sigma_color": 2.0, "sigma_space": 1.0}
+            else:
+                cfg = {"filter_method": "median_for_intervals", "filter_size": 3, "interval_indicator": "int",
+                       "regularization": rng.random() < 0.75, "ambiguity_indicator": "amb",
+                       "ambiguity_threshold": rng.choice([0.3, 0.5, 0.7]), "ambiguity_kernel_size": 3,
+                       "vertical_depth": rng.choice([0, 1]), "quantile_regularization": 0.9}
+        elif kind == "refinement":
+            cfg = {"refinement_method": rng.choice(["vfit", "quadratic"])}
+        else:
+            cfg = {"validation_method": "cross_checking_accurate",
+                   "cross_checking_threshold": rng.choice([0, 1, 1.0, 2])}
+            i = rng.choice([None, "mc-cnn", "sgm", "sgm"])
+            if i is not None:
+                cfg["interpolated_disparity"] = i
+        steps.append([name, cfg])
+    return {"rows": rows, "cols": cols, "w": w, "left": left, "right": right, "mask_left": ml, "mask_right": mr,
+            "disp": disp, "steps": steps, "id": idx}
+
+
+def cls_to_raw(cls):
+    if cls is None:
+        return None
+    m = np.array(cls, dtype=np.int16)
+    out = np.zeros_like(m)
+    out[m == 1] = 1
+    out[m == 2] = 2
+    return out
+
+
+def run_pipeline_spied(case):
+    """pandora.run on a fresh machine whose run callbacks snapshot the validity masks (and the left
+    disparity map) after every step"""
+    import pandora
+    from pandora.state_machine import PandoraMachine
+
+    L = pu.image_dataset(np.array(case["left"]), disp=tuple(case["disp"]), mask=cls_to_raw(case["mask_left"]))
+    R = pu.image_dataset(np.array(case["right"]), disp=(-case["disp"][1], -case["disp"][0]),
+                         mask=cls_to_raw(case["mask_right"]))
+    m = PandoraMachine()
+    snaps = []
+
+    def grab(ds, var="validity_mask"):
+        if ds is None or var not in ds:
+            return None
+        return np.array(ds[var].data).copy()
+
+    for kind in pu.KINDS:
+        cb = "run_multiscale" if kind == "multiscale" else kind + "_run"
+        orig = getattr(m, cb)
+
+        def wrapper(cfg, input_step, _orig=orig, _m=m):
+            res = _orig(cfg, input_step)
+            on_disp = _m.left_disparity is not None and "validity_mask" in _m.left_disparity
+            left = grab(_m.left_disparity) if on_disp else grab(_m.left_cv)
+            right = None
+            if _m.right_disp_map == "cross_checking_accurate":
+                right = grab(_m.right_disparity) if on_disp else grab(_m.right_cv)
+            snaps.append({"step": input_step, "left": left, "right": right,
+                          "disp": grab(_m.left_disparity, "disparity_map") if on_disp else None,
+                          "cv": grab(_m.left_cv, "cost_volume") if (_m.left_cv is not None and not on_disp) else None})
+            return res
+
+        setattr(m, cb, wrapper)
+    pandora.run(m, L, R, {"pipeline": {n: dict(c) for n, c in case["steps"]}})
+    return snaps
+
+
+def step_own(kind, cfg):
+    if kind == "refinement":
+        return OWN_BITS["refinement"]
+    if kind == "validation":
+        return OWN_BITS["validation+interp"] if "interpolated_disparity" in cfg else OWN_BITS["validation"]
+    if kind == "filter" and cfg.get("filter_method") == "median_for_intervals" and cfg.get("regularization"):
+        return OWN_BITS["mfi_reg"]
+    return 0
+
+
+def part_b(ctx, model):
+    rng = ctx.rng
+    quick = ctx.tier == "quick"
+    if ctx.replay_case is not None:
+        if ctx.replay_case.get("kind") != "pipeline":
+            return
+        cases = [ctx.replay_case["case"]]
+    else:
+        cases = [gen_pipeline_case(rng, i) for i in range(70 if quick else 900)]
+    pending = []   # (case, side, step name, kind, cfg, old, new, border mask)
+    queries = {}
+    for case in cases:
+        replay = {"kind": "pipeline", "case": case}
+        names = [n for n, _ in case["steps"]]
+        try:
+            snaps = run_pipeline_spied(case)
+        except Exception as exc:  # pylint: disable=broad-except
+            ctx.case(None)
+            ctx.count("pipelines_raised_" + type(exc).__name__)
+            ctx.mismatch("pipeline_raised", replay, f"{type(exc).__name__}: {exc}"[:200], "a run")
+            continue
+        ctx.traces += 1
+        ctx.count("pipelines_run")
+        off = (case["w"] - 1) // 2
+        rows, cols = case["rows"], case["cols"]
+        border = np.ones((rows, cols), dtype=bool)
+        if off == 0:
+            border[:, :] = False
+        elif rows > 2 * off and cols > 2 * off:
+            border[off:rows - off, off:cols - off] = False
+        cfgs = dict((n, c) for n, c in case["steps"])
+        inv_disp = cfgs["disparity"]["invalid_disparity"]
+        seen_validation = False
+        changed_after_disp = False
+        prev = {"left": None, "right": None}
+        for sn in snaps:
+            name = sn["step"]
+            kind = name.split(".")[0]
+            ctx.count("step_" + kind)
+            for side in ("left", "right"):
+                new = sn[side]
+                old = prev[side]
+                if new is None:
+                    continue
+                new = new.astype(np.int64)
+                # ---- spec on the implementation's own masks, every step
+                if np.any(new >= 4096) or np.any(new < 0) or np.any(new & 1024):
+                    i, j = map(int, np.argwhere((new >= 4096) | (new < 0) | ((new & 1024) != 0))[0])
+                    ctx.violation("undocumented_bit_after_" + kind,
+                                  f"pipeline {names}: after {name} the {side} flag of pixel ({i},{j}) is {int(new[i, j])} "
+                                  f"(before: {None if old is None else int(old[i, j])})", replay)
+                if np.any((new & 256 != 0) & (new & 512 != 0)):
+                    i, j = map(int, np.argwhere((new & 256 != 0) & (new & 512 != 0))[0])
+                    ctx.violation("occlusion_and_mismatch", f"pipeline {names}: after {name} the {side} flag of pixel "
+                                  f"({i},{j}) is {int(new[i, j])}: both occlusion and mismatch", replay)
+                bb = border & (new != 1)
+                if np.any(bb):
+                    i, j = map(int, np.argwhere(bb)[0])
+                    key = "border_regularized" if int(new[i, j]) == 2049 else "border_not_bit0_after_" + kind
+                    ctx.violation(key, f"pipeline {names}: after {name} the {side} border pixel ({i},{j}) carries "
+                                       f"{int(new[i, j])} instead of 1 (window {case['w']})", replay)
+                if kind == "matching_cost" or old is None:
+                    prev[side] = new
+                    continue
+                if kind in CV_KINDS or kind == "disparity":
+                    if not np.array_equal(old, new):
+                        i, j = map(int, np.argwhere(old != new)[0])
+                        ctx.violation("flags_changed_by_" + kind, f"pipeline {names}: {name} changed the {side} flag of "
+                                      f"pixel ({i},{j}) from {int(old[i, j])} to {int(new[i, j])}", replay)
+                    prev[side] = new
+                    continue
+                own = step_own(kind, cfgs[name])
+                foreign = (old ^ new) & ~own
+                if np.any(foreign != 0):
+                    i, j = map(int, np.argwhere(foreign != 0)[0])
+                    if border[i, j] and int(old[i, j]) == 2049 and int(new[i, j]) == 1:
+                        key = "border_regularized"
+                    else:
+                        key = "foreign_bit_changed_by_" + kind
+                    ctx.violation(key, f"pipeline {names}: {name} changed the {side} flag of pixel ({i},{j}) from "
+                                       f"{int(old[i, j])} to {int(new[i, j])}: bits outside the step's own {own}", replay)
+                if not np.array_equal(old, new):
+                    changed_after_disp = True
+                pending.append((replay, names, side, name, kind, cfgs[name], old, new, border, off > 0))
+                icode = ICODE[cfgs[name].get("interpolated_disparity")] if kind == "validation" else 0
+                scode = KIND_STEP[kind]
+                if kind == "filter" and cfgs[name].get("filter_method") == "median_for_intervals" \
+                        and cfgs[name].get("regularization"):
+                    scode = 1
+                for bflag in (False, True):
+                    sel = border if bflag else ~border
+                    for v in np.unique(old[sel]):
+                        queries[(scode, icode, off > 0, bflag, int(v))] = None
+                pending[-1] += (scode, icode)
+                prev[side] = new
+            # ---- before validation: invalid flag <-> all costs NaN <-> invalid disparity (left side)
+            if kind == "validation":
+                seen_validation = True
+            lm_ = sn["left"]
+            if lm_ is not None and sn["cv"] is not None and kind == "matching_cost":
+                allnan = np.all(np.isnan(sn["cv"]), axis=2)
+                flagged = (lm_.astype(np.int64) & INVALID_BEFORE_VALIDATION) != 0
+                if not np.array_equal(allnan, flagged):
+                    i, j = map(int, np.argwhere(allnan != flagged)[0])
+                    ctx.violation("invalid_flag_vs_allnan", f"pipeline {names}: after {name} pixel ({i},{j}) has flag "
+                                  f"{int(lm_[i, j])} but all-costs-NaN is {bool(allnan[i, j])}", replay)
+            if lm_ is not None and sn["disp"] is not None and not seen_validation:
+                d = sn["disp"]
+                isinv = np.isnan(d) if inv_disp == "NaN" else (d == inv_disp)
+                flagged = (lm_.astype(np.int64) & INVALID_BEFORE_VALIDATION) != 0
+                if not np.array_equal(isinv, flagged):
+                    i, j = map(int, np.argwhere(isinv != flagged)[0])
+                    ctx.violation("invalid_flag_vs_invalid_disparity",
+                                  f"pipeline {names}: after {name} (before validation) pixel ({i},{j}) has flag "
+                                  f"{int(lm_[i, j])} and disparity {float(d[i, j])} (invalid_disparity {inv_disp})", replay)
+        ctx.case((tuple(names), hashlib.sha1(repr((case["left"], case["right"])).encode()).hexdigest()[:12])
+                 if changed_after_disp else None)
+        ctx.sample({"kind": "pipeline", "steps": names, "shape": [rows, cols], "window": case["w"],
+                    "interval": case["disp"],
+                    "final_left_flags": None if not snaps or snaps[-1]["left"] is None else snaps[-1]["left"].tolist()},
+                   limit=3)
+    # ---- correspondence: every observed per-pixel transition is one the model can produce for some decision
+    keys = sorted(queries)
+    res = model.batch([(3, [k[0], k[1], k[2], k[3], k[4]]) for k in keys])
+    table = {k: (set(r[0]), r[1] == 1) for k, r in zip(keys, res)}
+    ctx.stats["distinct_step_queries"] = len(keys)
+    for replay, names, side, name, kind, cfg, old, new, border, offpos, scode, icode in pending:
+        for bflag in (False, True):
+            sel = border if bflag else ~border
+            for v in np.unique(old[sel]):
+                allowed, okall = table[(scode, icode, offpos, bflag, int(v))]
+                got = set(int(x) for x in np.unique(new[sel & (old == v)]))
+                ctx.count("transitions_checked", len(got))
+                if not got <= allowed:
+                    ctx.mismatch("flag_step_" + kind,
+                                 {"kind": "pipeline", "case": replay["case"], "step": name, "side": side,
+                                  "old": int(v), "border": bflag},
+                                 sorted(got), sorted(allowed))
+                if not okall:
+                    ctx.count("transitions_with_possible_carry")
+
+
 def run(ctx):
     model = core.Model("x04")
     wf, unsafe = model.call(4, [])
@@ -346,3 +614,4 @@ def run(ctx):
     if wf != 1:
         ctx.broken_obligation("wf_env", "the regenerated flag sites / constants are not well-formed")
     part_a(ctx, model)
+    part_b(ctx, model)
